@@ -281,6 +281,39 @@ def sc_tcp_big_then_close(B):
     return o
 
 
+def sc_getpeername_after_reset(B):
+    S = B.socket
+    l = S.socket(S.AF_INET, S.SOCK_STREAM)
+    l.bind(('127.0.0.1', 0))
+    l.listen()
+    c = S.socket(S.AF_INET, S.SOCK_STREAM)
+    c.connect(l.getsockname())
+    linger(B, c, 1, 0)
+    c.close()                      # RST before the server accepts
+    B.settle()
+    o = []
+    try:
+        s, addr = l.accept()
+        o.append(('accepted', isinstance(addr, tuple)))
+        o.append(obs(lambda: isinstance(s.getpeername(), tuple)))
+        o.append(obs(lambda: isinstance(s.getsockname(), tuple)))
+        o.append(obs(s.recv, 10))
+    except OSError as e:
+        o.append(('accept-err', type(e).__name__))
+    # established connection, then reset
+    l2, c2, s2 = pair(B)
+    linger(B, c2, 1, 0)
+    c2.close()
+    B.settle()
+    o.append(obs(lambda: isinstance(s2.getpeername(), tuple)))
+    # established, peer closes normally (FIN)
+    l3, c3, s3 = pair(B)
+    c3.close()
+    B.settle()
+    o.append(obs(lambda: isinstance(s3.getpeername(), tuple)))
+    return o
+
+
 SCENARIOS = [v for k, v in sorted(globals().items()) if k.startswith('sc_')]
 
 
